@@ -84,6 +84,7 @@ NewEndpoint(cfg, isn, rnxt0, pwnd0, now) ==
       held     |-> << >>,      \* wire seq -> payload length, packets held out of order
       consumed |-> 0,          \* bytes stored in order so far
       maxPay   |-> 0,          \* largest payload stored
+      maxArr   |-> 0,          \* largest payload that arrived
       lastAck  |-> -1,         \* last ack_nr emitted (-1: none yet)
       lastWnd  |-> -1,
       rightEdge|-> cfg.rx_buf, \* largest (bytes stored so far + window) ever advertised
@@ -94,6 +95,7 @@ NewEndpoint(cfg, isn, rnxt0, pwnd0, now) ==
       stim     |-> TRUE,       \* something happened to this endpoint since its previous emission
       \* obligations of C02 / C17
       idleWr   |-> 0, idleFin |-> 0, finAnsDue |-> 0, resetAt |-> 0, slotDue |-> 0, drainDue |-> 0,
+      stateAtReset |-> "",
       probeQ   |-> FALSE,      \* a size probe is queued or outstanding (nothing more is segmented meanwhile)
       \* bookkeeping
       txCount  |-> 0, rxCount |-> 0, synAcks |-> 0, lastRxAt |-> now, lastWire |-> now,
@@ -122,7 +124,10 @@ FinUnacked(e) == e.fin.seq >= 0 /\ ~e.fin.acked /\ ~e.fin.abort
 Put(f, k, v) == [x \in DOMAIN f \cup {k} |-> IF x = k THEN v ELSE f[x]]
 Del(f, ks) == [x \in DOMAIN f \ ks |-> f[x]]
 
-OwnMss(e) == Max(e.cfg.mss0, Max(e.maxPay, e.maxAcked))   \* the endpoint's proven segment size
+\* the endpoint's proven segment size: the protocol minimum, the largest payload acknowledged, the largest
+\* payload that arrived from the peer (loosest reading of "proven deliverable"), never above the link ceiling
+LinkCeiling(e) == e.cfg.link_mtu - (IF e.cfg.v6 THEN 48 ELSE 28) - 20
+OwnMss(e) == Max(e.cfg.mss0, Min(LinkCeiling(e), Max(e.maxArr, Max(e.maxPay, e.maxAcked))))
 
 (* a run list is the single run [pos, len] (short payloads may match at     *)
 (* several positions: alts; amb: too many to list)                          *)
